@@ -26,7 +26,7 @@ import (
 	"verifharness/lib"
 )
 
-const rule = "loop case: content non-empty or script has a zero-length read/failure; header case: any; toy-AEAD loop case: a mutation or a failing source"
+const rule = "loop case: content non-empty or script has a zero-length read/failure; header case: any; toy-AEAD loop case: a mutation or a failing source. Complete enumerations (independent of the seed): segment loop with segSize in {1,2,3,4,8}, content length 0..3*seg+1: every composition of the content into read sizes up to length 4/7/10/9/8 (quick) resp. 4/7/10/13/13 (thorough), times both EOF styles, times terminal eof/failOnce/failSticky, one zero-length read at every position (content <= 7 quick, all thorough), two zero-length reads at every pair of positions (content <= 4 quick, <= 7 thorough), a failing processFn at every call; header reader: every subset of cut points over the last 12 bytes of the small well-formed headers with 0..3 payload bytes and every truncation offset, times EOF styles and terminals. Everything else (longer contents, extra zero-length reads, oversized headers, mutated headers, the fourth reader script of each toy-AEAD case) is drawn from the seed, hence exhaustive=false for the run as a whole."
 
 type psCase struct {
 	Kind     string      `json:"kind"` // ps
@@ -798,7 +798,7 @@ func main() {
 	} else {
 		runC01(f, res, drv, rng)
 	}
-	res.Exhaustive = true
+	res.Exhaustive = false // the run mixes complete small-scope enumerations with seeded families: see rule
 	res.Write(f.Out)
 }
 
